@@ -62,6 +62,7 @@ def account(chk, obs):
     chk.count('templates')
     if o['tmpl']['h'] == 'tobj' or any(x.get('h') == 'tobj' for x in o['tmpl'].get('items', [])):
       chk.count('typed_templates_bound' if not o['bind_rejected'] else 'typed_templates_refused')
+      chk.count('typed_templates_offered_twice', 1 if o['bind_rejected'] else 0)
     chk.count('purity_stages', len(o['json']))
     chk.count('histories_filtered_then_unfiltered' if o['wh'] != 'all' and o['hashist'] else
               ('histories_unfiltered_then_filtered' if o['hashist'] else 'no_history'))
@@ -73,6 +74,9 @@ def account(chk, obs):
     chk.count('iterations', 1 if o['hasiter'] else 0)
     for x in o['dnas']:
       chk.distinct_case((s, x['tree']))
+      chk.count('encode_near_misses', len(x.get('foreign', [])))
+      chk.count('encode_near_misses_refused', sum(1 for f in x.get('foreign', []) if f[1][0] == '!'))
+      chk.count('encode_near_misses_accepted', sum(1 for f in x.get('foreign', []) if f[1][0] != '!'))
       if x['decoded'] != o['tmpl']:
         chk.count('decoded_differs_from_template')
       if not x['is_det']:
@@ -139,7 +143,7 @@ def run(chk):
   for need in ['templates', 'where:all', 'where:oneof', 'where:choices', 'where:many3', 'decoded', 'iterated_values',
                'iterations', 'decoded_with_placeholder_left', 'encoded_ok', 'kind:oneof', 'kind:manyof', 'kind:float',
                'kind:custom', 'kind:dict', 'kind:list', 'kind:obj', 'kind:tobj', 'kind:ref', 'kind:subclass_object', 'kind:constant_template', 'kind:conditional', 'kind:nested_choice',
-               'typed_templates_bound', 'typed_templates_refused', 'purity_stages', 'histories_filtered_then_unfiltered',
+               'typed_templates_bound', 'typed_templates_refused', 'encode_near_misses_refused', 'encode_near_misses_accepted', 'purity_stages', 'histories_filtered_then_unfiltered',
                'histories_unfiltered_then_filtered', 'root_placeholder_purity', 'root_placeholder_purity_filtered']:
     chk.require(c.get(need, 0) > 0, f'vacuous: counter {need} is zero')
 
